@@ -102,7 +102,10 @@ CHECKS = {
         "queryAnnotators_valid / wrapperQuery_valid (k distinct available pairs, utilities NaN at unavailable and earlier pairs, annotators per "
         "sample respected, samples in the inner strategy's order), iet_valid for IntervalEstimationThreshold. Tie: SingleAnnotatorWrapper around "
         "17 inner strategies and IntervalEstimationThreshold over the 3x3 specification grid with captured inner results and noise; property "
-        "oracle on every real output under a timeout alarm.",
+        "oracle on every real output under a timeout alarm. Translator tie: harness/translate/pyannot.py re-translates _n_to_assign_annotators (numpy vector expressions, "
+        "the while loop with fuel, break) from the current source into Gen/AnnotGen.lean on every run; n_to_assign_eq proves it equal to nToAssign for all inputs and "
+        "fuels, gen_n_to_assign_terminates / _fills / _saturated / _fuel_irrelevant are stated about the generated text, skaannotgendriver executes it on the arguments "
+        "of every real call and on direct calls of the static method; deviations are leads for the failing-input search.",
         design="§4 C07",
         technique="Lean 4 proof + model/implementation correspondence with spies",
     ),
